@@ -44,11 +44,11 @@ META = {
     "design_ref": "5.1 C06",
 }
 
-F_INV = ["TypeOK", "Inv_Sync", "Inv_Prefix", "Inv_Exact", "Inv_NoPartial", "Inv_Eager", "Inv_Terminal"]
-S_INV = ["TypeOK_S", "Inv_SegNoLoss", "Inv_SegEager", "Inv_NoSpuriousCrc", "Inv_Complete", "Inv_Detect"]
+F_INV = ["TypeOK", "Inv_Sync", "Inv_Prefix", "Inv_Exact", "Inv_NoPartial", "Inv_Terminal"]
+S_INV = ["TypeOK_S", "Inv_SegNoLoss", "Inv_SegEager", "Inv_Eager_S", "Inv_NoSpuriousCrc", "Inv_Complete", "Inv_Detect"]
 INVARIANTS = F_INV + S_INV
 WITNESSES = ["Witness_Defunct", "Witness_MultiSeg", "Witness_Packed", "Witness_PlainInComp", "Witness_ZInComp",
-             "Witness_WaitPayload", "Witness_AllDone_S"]
+             "Witness_WaitPayload", "Witness_AllDone_S", "Witness_Lag"]
 REPORT_PER_SIGNATURE = 2
 
 
@@ -107,15 +107,25 @@ def run(ctx):
     both = ("plain", "comp")
     regs = ("h", "c", "p", "q")
     if ctx.quick:
+        models = [("no corruption: 1 msg, sizes 2/3/4/5/10, flags free",
+                   _consts((0, 1, 2, 3, 8), (0,), 1, 1, both, 3, (), True)),
+                  ("no corruption: 2 msgs, sizes 2/5, <=3 segments, flags free",
+                   _consts((0, 3), (0,), 2, 2, both, 3, (), True)),
+                  ("one corruption: 1-2 msgs, sizes 2/5, <=2 segments, flags all-or-nothing",
+                   _consts((0, 3), (0,), 1, 2, both, 2, regs, False)),
+                  ("no corruption: 3 tiny msgs, two of them sharing a segment",
+                   _consts((0,), (0,), 3, 3, both, 2, (), False))]
+    else:
         models = [("no corruption: 1-2 msgs, sizes 2/3/4/5/10, <=3 segments, flags free",
                    _consts((0, 1, 2, 3, 8), (0,), 1, 2, both, 3, (), True)),
-                  ("one corruption: 1-2 msgs, sizes 2/4/5, <=2 segments, flags all-or-nothing",
-                   _consts((0, 2, 3), (0,), 1, 2, both, 2, regs, False))]
-    else:
-        models = [("no corruption: 1-2 msgs, sizes 2/3/4/5/10, pushes 2/3, <=4 segments, flags free",
-                   _consts((0, 1, 2, 3, 8), (0, 1), 1, 2, both, 4, (), True)),
-                  ("one corruption: 1-2 msgs, sizes 2/3/4/5/10, <=3 segments, flags free",
-                   _consts((0, 1, 2, 3, 8), (0,), 1, 2, both, 3, regs, True))]
+                  ("no corruption: 2 msgs, sizes 3/5/10, pushes 2/3, <=5 segments, flags all-or-nothing",
+                   _consts((1, 3, 8), (0, 1), 2, 2, both, 5, (), False)),
+                  ("one corruption: 1-2 msgs, sizes 2/4/5/10, <=3 segments, flags all-or-nothing",
+                   _consts((0, 2, 3, 8), (0,), 1, 2, both, 3, regs, False)),
+                  ("one corruption: 1 msg, sizes 2/5/10, flags free",
+                   _consts((0, 3, 8), (0,), 1, 1, both, 3, regs, True)),
+                  ("no corruption: 3 msgs, sizes 2/4, two of them sharing a segment, <=3 segments",
+                   _consts((0, 2), (0,), 3, 3, both, 3, (), False))]
     graphs = []
     for n, (label, consts) in enumerate(models):
         res, nodes, edges, init = tlc.state_graph("Segments", _cfg(ctx, "seg_%d.cfg" % n, consts, INVARIANTS), ctx.scratch,
@@ -128,7 +138,7 @@ def run(ctx):
         if not cov.get("Next_S") or cov["Next_S"][1] == 0:
             raise tlc.MachineryError("SRead never taken in model %s: %s" % (label, cov))
         graphs.append((label, nodes, edges, init))
-    wconsts = _consts((0, 2, 3, 8), (0,), 1, 2, both, 3, ("p",), True)
+    wconsts = _consts((0, 8), (0,), 1, 3, both, 3, ("p",), False)
     wres = tlc.run_tlc("Segments", _cfg(ctx, "witness.cfg", wconsts, WITNESSES), ctx.scratch, timeout=900, extra=("-continue",))
     reached = set(re.findall(r"Invariant (\w+) is violated", wres.out))
     if reached != set(WITNESSES):
@@ -211,7 +221,7 @@ def run(ctx):
             if len(w) < 2:
                 continue
             st0 = nodes[w[0]]
-            if st0["corrupt"]["seg"] != 0:
+            if st0["corrupt"]["seg"] != 0 and len(st0["frames"]) == 1:
                 walks_by_cfg.setdefault(cfg_key(_config_of(st0)), (st0, nodes, P, []))[3].append(w)
             if selftest < 2 and len(w) >= 3 and st0["corrupt"]["seg"] == 0:
                 # binding self-test: a flipped expectation must be noticed
@@ -272,7 +282,7 @@ def run(ctx):
             for k in walks_by_cfg if walks_by_cfg[k][0]["corrupt"]["reg"] != "p")
         ctx.note("every_header_and_crc_bit_flipped", bool(full))
         phase("bit_sweep")
-    ctx.note("corrupt_configs", len(walks_by_cfg))
+    ctx.note("bit_sweep_configs", len(walks_by_cfg))
     ctx.note("bits_flipped", sum(len(v) for v in bits_used.values()))
     ctx.traces_validated += replayed
     ctx.note("behaviours_replayed", replayed)
